@@ -451,9 +451,24 @@ class cleanup_functools_wrapper(object):
             setattr(self.func, attr, val)
 
 
+def own_signature(func):
+    """Signature of ``func`` as written in its ``def`` statement, ignoring
+    ``__wrapped__`` and ``__signature__``, computed without touching ``func``
+    (other threads may be inspecting it, and retrieval may fail midway)."""
+    bare = types.FunctionType(
+        func.__code__, func.__globals__, func.__name__,
+        func.__defaults__, func.__closure__)
+    bare.__kwdefaults__ = func.__kwdefaults__
+    bare.__annotations__ = func.__annotations__
+    sig = _util.funcsigs.signature(bare)
+    return _signatures.set_default_sources(sig, func)
+
+
 def autoforwards_function(func, args, kwargs):
-    with cleanup_functools_wrapper(func):
-        sig = _signatures.signature(func)
+    if not isinstance(func, types.FunctionType):
+        # only functions have source code to examine
+        raise UnknownForwards
+    sig = own_signature(func)
     if not any_params_star(sig):
         raise UnknownForwards
     func_ast = _util.get_ast(func)
